@@ -26,6 +26,11 @@ CHECKS = {
             "Generated hostile records, specification strings, file-name configurations and pre-populated directories (near misses derived from the logger's own pattern, invalid UTF-8, malformed .restart- extensions, sub-directories, dangling symlinks) under histories incl. restarts and external removal of the directory; any panic in any thread, any watchdog hit, or a probe record that panics afterwards is a violation. Search, not proof; six panics found this way were repaired in /repo.",
             "documented panics are not provoked; hang = case exceeding the 30 s watchdog reproducibly in a fresh process",
             "DESIGN.md 4/C10"),
+    "C11": ("fault_enumeration",
+            "crash-point enumeration: child processes killed with SIGKILL at traced hook points of proptest-generated histories, acknowledgement file vs. directory contents, restart in a second child",
+            "For every generated history the hits of all hook points (before/after each file-system effect of write, rotation, symlink replacement, cleanup, compression) are traced; a fresh child is killed at each (point, occurrence) pair (all pairs for small histories, otherwise a subset incl. first/last occurrence of every point); acknowledged records must be in the files, nothing torn/duplicated/reordered; a second child restarts on the directory and must exit 0 with an empty error channel, preserve what the limits permit and keep the limits. Enumeration per history, histories sampled.",
+            "kills at hook points (SIGKILL on self), not inside system calls; for background cleanup the position of the kill relative to the logging thread is schedule dependent; KF-C07-1 tolerated by exact signature",
+            "DESIGN.md 4/C11"),
     "C12": ("exploration",
             "systematic enumeration of thread interleavings at hook points (controlled scheduler) over proptest-generated spec sets",
             "2-3 threads each issue one specification change; a scheduler parks them at the three hook points of every update and executes all 20 orderings (2 threads) or all 1680 / a sample (3 threads); final filtering must equal exactly one submitted spec and log::max_level must admit it. Exhaustive at hook granularity for each generated spec set, search over spec sets.",
